@@ -703,6 +703,16 @@ func c02(c *h.Ctx) {
 		c.Case("regression", fx.in, true)
 	}
 
+	// chunk sizes above 64 KiB with messages longer than 64 KiB (a conformant sender may announce up to 2^31-1)
+	for _, cs := range []struct{ chunk, length int }{{131072, 70000}, {0xffffff, 200000}, {65537, 65537}, {1 << 24, 65536}} {
+		g := newSender(r.Fork())
+		g.setChunk(cs.chunk)
+		g.whole(6, 1, 0, 7, cs.length, 9, 1, 0)
+		g.whole(6, 1, 3, 0, 0, 0, 0, 0) // type 3 starts the next message: same length, delta = 7
+		g.whole(64, 2, 0, 1000, 300, 8, 1, 0)
+		runConformant(c, "large-chunk-size", g, nextMode())
+	}
+
 	// sweep of chunk stream ids in every legal basic-header form (quick: all of 2..319, 3-byte form sampled)
 	step := c.N(257, 1)
 	sweep := func(cid, form int) {
